@@ -229,8 +229,9 @@ pub struct LayGen {
 pub fn lay_case_strategy(g: LayGen) -> BoxedStrategy<Case> {
     let LayGen { prop, weights, max_ops, generic_pct } = g;
     let u = prop_oneof![2 => Just(4u64), 3 => Just(12u64), 3 => Just(40u64), 1 => Just(200u64)];
-    (u, 0u64..hbv::layouts::N_LAYOUTS, 0u64..3, plan_strategy(), cap_strategy(), 0u32..100)
-        .prop_flat_map(move |(u, layout, coll, plan, cap, be)| {
+    let slack = prop_oneof![13 => Just(0u64), 1 => Just(1u64), 1 => Just(16u64), 1 => Just(4096u64)];
+    (u, 0u64..hbv::layouts::N_LAYOUTS, 0u64..3, plan_strategy(), cap_strategy(), 0u32..100, slack)
+        .prop_flat_map(move |(u, layout, coll, plan, cap, be, slack)| {
             let ops = vec(ops_strategy(hbv::specs::LAY_OPS, weights, u), 0..max_ops);
             ops.prop_map(move |ops| {
                 let mut c = Case::new("lay");
@@ -239,6 +240,7 @@ pub fn lay_case_strategy(g: LayGen) -> BoxedStrategy<Case> {
                 c.set("layout", layout);
                 c.set("coll", coll);
                 c.set("cap", cap);
+                c.set("slack", slack);
                 c.set("backend", (be < generic_pct) as u64);
                 set_plan(&mut c, "", plan);
                 c.ops = ops;
@@ -248,9 +250,28 @@ pub fn lay_case_strategy(g: LayGen) -> BoxedStrategy<Case> {
         .boxed()
 }
 
+/// Collections with more than 2^16 elements (`interp_big.rs`): counting statements only.
+pub fn big_case_strategy(prop: u64) -> BoxedStrategy<Case> {
+    (plan_strategy(), 0u64..3, 0u64..5000, 0u64..101, 0u64..4, 0u32..100)
+        .prop_map(move |(plan, coll, n_extra, keep, scale, be)| {
+            let mut c = Case::new("big");
+            c.set("prop", prop);
+            c.set("coll", coll);
+            c.set("n_extra", n_extra);
+            c.set("keep", keep);
+            c.set("scale", (scale == 3) as u64);
+            c.set("backend", (be < 25) as u64);
+            // spread positions only (mixed / identity): with colliding positions 2^16 inserts are quadratic
+            let plan = (if plan.0 % 2 == 0 { 0 } else { 6 }, plan.1, plan.2, plan.3, plan.4);
+            set_plan(&mut c, "", plan);
+            c
+        })
+        .boxed()
+}
+
 pub fn serde_case_strategy() -> BoxedStrategy<Case> {
     let u = prop_oneof![2 => Just(3u64), 3 => Just(10u64), 2 => Just(60u64), 1 => Just(5000u64)];
-    (u, plan_strategy(), 0u64..2, 0u64..4, 0u64..8, 0u32..100, 0u64..40, 0u32..100, 0u64..100)
+    (u, plan_strategy(), 0u64..2, 0u64..4, 0u64..12, 0u32..100, 0u64..40, 0u32..100, 0u64..100)
         .prop_flat_map(move |(u, plan, coll, mode, hint, errp, pre, be, etp)| {
             let n = prop_oneof![4 => 0usize..12, 3 => 12usize..80, 1 => 80usize..400];
             (n, 0u64..65536).prop_flat_map(move |(n, errfrac)| {
